@@ -53,6 +53,7 @@ type histB struct {
 	label                   string
 	big                     bool // large concrete fan-out base: keep symbolic probes cheap
 	noSym                   bool // no symbolic update after the base
+	mid                     bool // 9..17 siblings with a symbolic update
 }
 
 func (b histB) scn() *Scenario {
@@ -268,6 +269,10 @@ func fFan(c *CheckRun, kind int, nSym int, variants int, full bool) []histB {
 				out = append(out, histB{kind: kind, ops: append(append([][2]int(nil), base...), [2]int{opDelete, aSpec(0, 1)}), probes: []int{cp}, label: label + " C", big: true})
 				continue
 			}
+			if sh.m > 8 || sh.from > 8 {
+				// mid-size bases also get a variant without symbolic update (for checks whose probes fork heavily)
+				out = append(out, histB{kind: kind, ops: base, probes: []int{aSpec(0, 1)}, label: label + " A", big: true, noSym: true})
+			}
 			var pats [][][2]int
 			if nSym == 1 {
 				pats = [][][2]int{{{opInsert, aSpec(0, 1)}}, {{opDelete, aSpec(0, 1)}}}
@@ -281,7 +286,7 @@ func fFan(c *CheckRun, kind int, nSym int, variants int, full bool) []histB {
 			}
 			for _, pat := range pats {
 				ops := append(append([][2]int(nil), base...), pat...)
-				out = append(out, histB{kind: kind, ops: ops, probes: []int{aSpec(0, 1)}, label: label})
+				out = append(out, histB{kind: kind, ops: ops, probes: []int{aSpec(0, 1)}, label: label, mid: sh.m > 8 || sh.from > 8})
 			}
 		}
 	}
